@@ -85,8 +85,9 @@ Definition set_meta (c : cls) (m : cref) : cls := mkCls (cid c) (cname c) (csupe
 
 (* Object: one native method (core.rs bind_object_class) *)
 Definition object_table : mtable := [("derives", MNative NDerives)].
-Definition object_cls : cls := mkCls (CUser 0) "Object" None (CMeta 0) object_table.
-Definition object_meta : cls := mkCls (CMeta 0) "ObjectClass" (Some (CUser 0)) CBaseMeta object_table.
+Definition object_cls : cls := mkCls (CUser 0) "Object" None CBaseMeta object_table.
+(* Object's metaclass is the base metaclass `Type` (a subclass of Object: core.rs bind_type_class) *)
+Definition object_meta : cls := mkCls CBaseMeta "Type" (Some (CUser 0)) CBaseMeta object_table.
 
 (* ObjClass::new(name, metaclass, Some(parent), own): parent's table cloned, then own entries inserted *)
 Definition objclass_new (id : cref) (name : string) (meta : cref) (parent : option cls) (own : mtable) : cls :=
@@ -221,7 +222,7 @@ Definition class_obj (cs : cstore) (r : cref) : option cls :=
   | CUser i => option_map fst (nth_error (classes cs) i)
   | CMeta i => option_map snd (nth_error (classes cs) i)
   | CBuiltin _ => Some (mkCls r "Builtin" (Some (CUser 0)) CBaseMeta object_table)
-  | CBaseMeta => Some (mkCls CBaseMeta "Type" None CBaseMeta [])
+  | CBaseMeta => Some object_meta
   end.
 
 Definition table_of (cs : cstore) (r : cref) : mtable :=
